@@ -14,21 +14,36 @@
    of the view counter, every dialect record d (merging on or off, SQLite join rewrites on or off) and every flavour fl of
    scalar conventions (the generated text is the same; both sides read it under the same conventions).
 
-   FRAGMENT (`stage1 (d_allow_extend_merges d) p`):  table descriptions, select_rows, select_columns, drop_columns,
-   rename_columns, map_columns, order_rows, project (grouped or not, with the pruning of aggregates and the "keep one aggregate"
-   guard), un-windowed extend INCLUDING the SQL-level extend merge, concat_rows (without id column, or with an id column --
-   also over an un-windowed extend, where the generator's `.extend({id: label})` merges the label into that ExtendNode; NOT
-   over an order_rows without limit, which that builder call skips: the rows then come in another order, transcribed but not
-   proved), and -- for dialects that do not merge at SQL level -- windowed extend.
-   NOT covered by the semantic theorems: natural_join (generic and SQLite-rewritten; transcribed, tied structurally and
-   behaviourally, but unproved -- the attempt exposed finding SQLGEN-join-unused-side-bare-table-ambiguous), windowed extend
-   under SQL-level merging.
+   FRAGMENT (`stage1 (d_allow_extend_merges d) (join_covered d fl) p`):  table descriptions, select_rows, select_columns,
+   drop_columns, rename_columns, map_columns, order_rows, project (grouped or not, with the pruning of aggregates and the "keep
+   one aggregate" guard), un-windowed extend INCLUDING the SQL-level extend merge, concat_rows (without id column, or with an
+   id column -- also over an un-windowed extend, where the generator's `.extend({id: label})` merges the label into that
+   ExtendNode; NOT over an order_rows without limit, which that builder call skips: the rows then come in another order,
+   transcribed but not proved), for dialects that do not merge at SQL level windowed extend, and
+   natural_join WRITTEN AS A JOIN (stage iv, `join_covered d fl jt`): INNER and LEFT for every dialect; RIGHT when the dialect
+   does not rewrite it (d_rewrite_right d = false: DBModel / PostgreSQLModel); FULL when the dialect does not rewrite it
+   (d_rewrite_full d = false: DBModel / PostgreSQLModel, and SQLiteModel linked with SQLite >= 3.39) -- anywhere in the
+   pipeline, any operands of the fragment (joins of joins included), any key lists the builder accepts (also none: the cross
+   join), any request (also the empty one: the row count), under the generator as it is since /repo 6d4c3d4 (d_join_carry d =
+   true: a side none of whose columns is wanted is asked for its first column) and for flavours in which a NULL key matches
+   nothing (f_join_null_match fl = false: every flavour of Model/Sem.v).  The proof goes through C16's sem_join_is_spec
+   (Proofs/JoinP1.v): sem_join = JoinSpec's joined_TN / unmatched_left / unmatched_right, which is what Model/SqlSem.v's
+   join_pairs is written from; Proofs/SqlGenP15.v delivers_join / delivers_join_star is the node, Proofs/SqlGenP16.v
+   gen_bare_ok (a bare table operand has exactly the requested columns -- what 6d4c3d4 restored) and node_join the glue.
+   NOT covered by the semantic theorems (transcribed, tied structurally and behaviourally, unproved):
+     - the SQLite rewrites of a join: RIGHT as the swapped LEFT join (d_rewrite_right; needs delivers_join for
+       COALESCE(right, left), i.e. join_terms false, and C16's right/left mirror law) and FULL as the three-way construction
+       (d_rewrite_full: SQLite < 3.39);
+     - the generator before 6d4c3d4 (d_join_carry d = false), which is the finding SQLGEN-join-unused-side-bare-table-ambiguous;
+     - windowed extend under SQL-level merging.
 
    WHICH PROPERTY FILE EACH THEOREM STRENGTHENS
      SQLGEN_correct_partial, SQLGEN_correct_toplevel_partial   Props/C01.v (SQLite SQL = reference semantics fl_sqlite: the behavioural
                                       model "the SQL path computes sem_gen fl_sqlite" becomes a theorem about the transcribed generator,
                                       for the fragment), Props/C02.v (same generator with d_generic; only the dialect record differs),
                                       Props/C10.v's use (the pruning lemma is what makes `using` sound)
+     SQLGEN_join_partial              Props/C16.v (the join contract, for the SQL path: the generated JOIN with its COALESCE / pass terms
+                                      and pruned operands computes sem_join = JoinSpec), Props/C01.v, Props/C02.v (RIGHT / FULL native)
      SQLGEN_result_columns_partial    Props/C08.v (declared columns for the SQL path)
      SQLGEN_row_count_partial         Props/C09.v (one row per group / one row without grouping survives pruning in SQL), Props/C08.v
      SQLGEN_view_names_distinct       Props/C15.v (generated names; all node kinds)
@@ -39,7 +54,7 @@
 From Coq Require Import List Bool Arith ZArith QArith String Permutation.
 Import ListNotations.
 From DA Require Import Base.PyRT Base.Val Model.Sem Model.ColumnsUsed Model.SqlGen Model.SqlSem
-  Proofs.SqlGenP1 Proofs.SqlGenP2 Proofs.SqlGenP4 Proofs.SqlGenP6 Proofs.SqlGenP7 Proofs.SqlGenP8 Proofs.SqlGenP9 Proofs.SqlGenEx.
+  Proofs.SqlGenP1 Proofs.SqlGenP2 Proofs.SqlGenP4 Proofs.SqlGenP6 Proofs.SqlGenP7 Proofs.SqlGenP8 Proofs.SqlGenP9 Proofs.SqlGenP15 Proofs.SqlGenP16 Proofs.SqlGenEx.
 Local Open Scope string_scope.
 Local Open Scope list_scope.
 
@@ -51,7 +66,7 @@ Local Open Scope list_scope.
    table restricted to C:   nsem (to_near p using) = restrict using (sem_gen p). *)
 Theorem SQLGEN_correct_partial :
   forall fl (e : env) d p usg ids q ids',
-  builder_ok p = true -> stage1 (d_allow_extend_merges d) p = true -> wf_env e p ->
+  builder_ok p = true -> stage1 (d_allow_extend_merges d) (join_covered d fl) p = true -> wf_env e p ->
   NoDup (req p usg) -> incl (req p usg) (column_names p) ->
   to_near d p usg ids = Ok (q, ids') ->
   exists T, sem_gen fl p e = Some T /\
@@ -63,7 +78,7 @@ Print Assumptions SQLGEN_correct_partial.
    read in the declared column order, IS the reference table (same rows, same order: in particular after a final order_rows). *)
 Theorem SQLGEN_correct_toplevel_partial :
   forall fl (e : env) d p ids q ids',
-  builder_ok p = true -> stage1 (d_allow_extend_merges d) p = true -> wf_env e p ->
+  builder_ok p = true -> stage1 (d_allow_extend_merges d) (join_covered d fl) p = true -> wf_env e p ->
   to_near d p None ids = Ok (q, ids') ->
   exists T R, sem_gen fl p e = Some T /\ nsem fl q e = Some R /\
     sem_select_cols (column_names p) R = T /\ incl (column_names p) (cols R) /\ NoDup (cols R) /\
@@ -76,7 +91,7 @@ Print Assumptions SQLGEN_correct_toplevel_partial.
    keys of the final step's terms`, which the structural tie compares with the real graph.) *)
 Theorem SQLGEN_result_columns_partial :
   forall fl (e : env) d p ids q ids',
-  builder_ok p = true -> stage1 (d_allow_extend_merges d) p = true -> wf_env e p ->
+  builder_ok p = true -> stage1 (d_allow_extend_merges d) (join_covered d fl) p = true -> wf_env e p ->
   to_near d p None ids = Ok (q, ids') ->
   exists R, nsem fl q e = Some R /\ incl (column_names p) (cols R) /\ NoDup (cols R) /\
             option_map cols (sem_gen fl p e) = Some (cols (sem_select_cols (column_names p) R)).
@@ -91,12 +106,40 @@ Print Assumptions SQLGEN_result_columns_partial.
    "one row without grouping" for the SQL path of this fragment. *)
 Theorem SQLGEN_row_count_partial :
   forall fl (e : env) d p usg ids q ids',
-  builder_ok p = true -> stage1 (d_allow_extend_merges d) p = true -> wf_env e p ->
+  builder_ok p = true -> stage1 (d_allow_extend_merges d) (join_covered d fl) p = true -> wf_env e p ->
   NoDup (req p usg) -> incl (req p usg) (column_names p) ->
   to_near d p usg ids = Ok (q, ids') ->
   exists T R, sem_gen fl p e = Some T /\ qsem fl e q (Some []) = Some R /\ List.length (rows R) = List.length (rows T).
 Proof. exact stage1_row_count. Qed.
 Print Assumptions SQLGEN_row_count_partial.
+
+(* Stage (iv), spelled out for a join node at the top (the four theorems above cover joins anywhere in the pipeline): the
+   generated JOIN query -- operands pruned to the columns wanted plus the keys, COALESCE(left, right) for a wanted column both
+   sides carry, the ON list -- asked for any non-empty part C of the request returns the reference join restricted to C,
+   in the reference row order (matched pairs in left-major order, then the unmatched rows the join type keeps).
+   PARTIAL: join types the dialect writes as a join (see the header); not the SQLite RIGHT / old-FULL rewrites. *)
+Theorem SQLGEN_join_partial :
+  forall fl (e : env) d a b on_a on_b jt usg ids q ids',
+  let p := OJoin a b on_a on_b jt in
+  builder_ok p = true ->
+  stage1 (d_allow_extend_merges d) (join_covered d fl) a = true -> stage1 (d_allow_extend_merges d) (join_covered d fl) b = true ->
+  join_covered d fl jt = true -> wf_env e p ->
+  NoDup (req p usg) -> incl (req p usg) (column_names p) ->
+  to_near d p usg ids = Ok (q, ids') ->
+  exists A B, sem_gen fl a e = Some A /\ sem_gen fl b e = Some B /\
+    forall C, C <> [] -> NoDup C -> incl C (req p usg) ->
+      qsem fl e q (Some C) = Some (sem_select_cols C (sem_join false on_a on_b jt A B)).
+Proof.
+  intros fl e d a b on_a on_b jt usg ids q ids' p BO Sa Sb Jk WF Nu Iu H.
+  assert (stage1 (d_allow_extend_merges d) (join_covered d fl) p = true) as St by (unfold p; cbn [stage1]; rewrite Sa, Sb, Jk; reflexivity).
+  destruct (SQLGEN_correct_partial fl e d p usg ids q ids' BO St WF Nu Iu H) as [T [ET HT]].
+  unfold p in ET. simpl in ET. destruct (sem_gen fl a e) as [A|]; [|discriminate]. destruct (sem_gen fl b e) as [B|]; [|discriminate].
+  injection ET as <-. exists A, B. split; [reflexivity|]. split; [reflexivity|].
+  assert (f_join_null_match fl = false) as NM.
+  { unfold join_covered in Jk. rewrite !andb_true_iff in Jk. destruct Jk as [[_ X] _]. apply negb_true_iff in X. exact X. }
+  rewrite NM in HT. exact HT.
+Qed.
+Print Assumptions SQLGEN_join_partial.
 
 (* ALL node kinds, ALL dialects, merging on or off: every generated view (step names extend_N, project_N, ..., and the two
    aliases join_source_left_N / join_source_right_N of a join) carries a number taken from the counter between its start value
@@ -138,7 +181,7 @@ Definition ex_p :=
          ["x"] ["x"] (Some 3%nat).
 Definition ex_env : env := [("t", mktable ["a"; "b"; "c"] [[VNum 1; VNum 2; VStr "u"]; [VNum (-1); VNull; VStr "v"]; [VNum 3; VNum 4; VNull]])].
 Example SQLGEN_guards_satisfiable :
-  builder_ok ex_p = true /\ stage1 true ex_p = true /\ wf_env ex_env ex_p /\
+  builder_ok ex_p = true /\ stage1 true (join_covered d_sqlite fl_sqlite) ex_p = true /\ wf_env ex_env ex_p /\
   match to_near d_sqlite ex_p None 0 with
   | Ok (q, _) => nsem fl_sqlite q ex_env = sem_gen fl_sqlite ex_p ex_env /\
                  option_map (fun t => List.length (rows t)) (nsem fl_sqlite q ex_env) = Some 3%nat
@@ -152,6 +195,18 @@ Qed.
 (* a windowed extend, for a dialect that does not merge *)
 Definition ex_w := OSelectCols (OExtend ex_t [("r", EOp "cumsum" [ECol "a"])] true (mkwin ["c"] ["b"] ["b"])) ["r"; "c"].
 Example SQLGEN_window_guard_satisfiable :
-  builder_ok ex_w = true /\ stage1 false ex_w = true /\
+  builder_ok ex_w = true /\ stage1 false (join_covered d_sqlite_nomerge fl_sqlite) ex_w = true /\
   match to_near d_sqlite_nomerge ex_w None 0 with Ok (q, _) => nsem fl_sqlite q ex_env = sem_gen fl_sqlite ex_w ex_env | _ => False end.
 Proof. split; [vm_compute; reflexivity|]. split; vm_compute; reflexivity. Qed.
+(* a join of the fragment, for the generic dialect as PostgreSQLModel has it at /repo 6d4c3d4 (FULL written as FULL JOIN) *)
+Definition ex_d_generic := mk_dialect true false false true.
+Definition ex_j :=
+  OOrder (OJoin (OSelectRows (OSelectCols ex_t ["a"; "b"]) (EOp ">" [ECol "a"; EConst (VNum 0)]))
+                (OProject ex_t [("s", EOp "sum" [ECol "a"])] ["b"]) ["b"] ["b"] JFull) ["a"] [] None.
+Example SQLGEN_join_guard_satisfiable :
+  builder_ok ex_j = true /\ stage1 true (join_covered ex_d_generic fl_postgres) ex_j = true /\
+  match to_near ex_d_generic ex_j None 0 with
+  | Ok (q, _) => option_map (sem_select_cols (column_names ex_j)) (nsem fl_postgres q ex_env) = sem_gen fl_postgres ex_j ex_env /\
+                 option_map (fun t => List.length (rows t)) (nsem fl_postgres q ex_env) = Some 3%nat
+  | _ => False end.
+Proof. split; [vm_compute; reflexivity|]. split; [vm_compute; reflexivity|]. vm_compute. split; reflexivity. Qed.
